@@ -496,6 +496,8 @@ class Session:
             err = "err:Fault"
         except KeyError:
             err = "err:KeyError"
+        except Exception as e:  # nobody injected this one: reported by the caller, never swallowed
+            err = "err:Other:" + type(e).__name__
         return err, self.take()
 
     def close(self):
@@ -506,21 +508,37 @@ class Session:
             self._orig_spinner = None
 
 
-def run_with(cfg, ops, faults, raise_at, body_exc=BodyError):
-    """`with display: body` on the real objects.  -> (characters written, raised?, ctl, restored?, exception type, spinner frames)"""
+def run_with(cfg, ops, faults, raise_at, body_exc=BodyError, probe=None):
+    """`with display: body` on the real objects.
+    -> (characters written, raised?, ctl, restored?, type of the exception that left the block, spinner frames,
+        what a print right after the block wrote)
+    Whatever leaves the block is recorded, also exceptions nobody injected (they are judged by the caller).
+    `probe`: a list that receives the number of injectable calls made before each operation."""
     s = Session(cfg, faults)
     try:
         exc = None
         try:
             with s.obj:
                 for i, op in enumerate(ops):
+                    if probe is not None:
+                        probe.append(s.faults.calls)
                     if raise_at is not None and i == raise_at:
                         raise body_exc(i)
                     s.apply(op)
+                if probe is not None:
+                    probe.append(s.faults.calls)
                 if raise_at is not None and raise_at >= len(ops) and raise_at == len(ops):
                     raise body_exc(raise_at)
-        except BOOMS + BODY_ERRORS + (KeyError,) as e:
+        except (Exception,) + BOOMS + BODY_ERRORS as e:
             exc = e
-        return s.take(), exc is not None, s.ctl(), s.restored(), type(exc).__name__ if exc else None, "".join(s.spins)
+        chars, ctl, restored = s.take(), s.ctl(), s.restored()
+        # "later prints are plain": the same print a console without any display would make
+        after = None
+        try:
+            s.console.print(LinesR(["after"]))
+            after = s.take()
+        except (Exception,) + BOOMS as e:
+            after = "raised " + type(e).__name__
+        return chars, exc is not None, ctl, restored, type(exc).__name__ if exc else None, "".join(s.spins), after
     finally:
         s.close()
